@@ -904,3 +904,129 @@ class CalloutAny(_SubUnit):
 
 
 C05_UNITS = [CalloutAny]
+
+
+# ------------------------------------------------------------------ bounded companion: generated SRC sections, independent native oracle
+def native_callouts_spec(sec):
+    """what the statement says the Callout Section of an SRC section shows, computed from the section's bytes alone
+    (sec = the whole section incl. its 8-byte header; plugins off).  Returns None when there is no callout subsection."""
+    from collections import OrderedDict
+    body = sec[8:]
+    flags = body[1]
+    if not flags & 0x01:
+        return None
+    p = 72
+    total = 4 * int.from_bytes(body[p + 2:p + 4], 'big')
+    end = p + total
+    p += 4
+    outs = []
+
+    def txt(b):
+        return b.decode().rstrip('\x00') if False else b.decode()
+    while p < end:
+        size, cflags, prio, loclen = body[p], body[p + 1], body[p + 2], body[p + 3]
+        q = p + 4
+        loc = body[q:q + loclen].decode().rstrip('\x00')
+        q += loclen
+        js = OrderedDict()
+        fru = pce = mru = None
+        stop = p + size
+        while q < stop:
+            t = body[q:q + 2]
+            if t == b'ID':
+                ln, fl = body[q + 2], body[q + 3]
+                r = q + 4
+                fru = dict(flags=fl)
+                if fl & 0x0A:
+                    fru['pn'] = body[r:r + 8].decode().rstrip('\x00')
+                    r += 8
+                if fl & 0x04:
+                    fru['ccin'] = body[r:r + 4].decode().rstrip('\x00')
+                    r += 4
+                if fl & 0x01:
+                    fru['sn'] = body[r:r + 12].decode().rstrip('\x00')
+                    r += 12
+                q += ln
+            elif t == b'PE':
+                ln = body[q + 2]
+                pce = dict(mt=body[q + 4:q + 12].decode().rstrip('\x00'), sn=body[q + 12:q + 24].decode().rstrip('\x00'),
+                           name=body[q + 24:q + ln].decode().rstrip('\x00'))
+                q += ln
+            elif t == b'MR':
+                ln, n = body[q + 2], body[q + 3] & 0x0F
+                mru = [int.from_bytes(body[q + 8 + 8 * k + 4:q + 8 + 8 * k + 8], 'big') for k in range(n)]
+                q += ln
+            else:
+                break
+        if fru is not None:
+            js["FRU Type"] = T('failingComponentType').get(fru['flags'] & 0xF0, 'Invalid')
+            js["Priority"] = T('calloutPriorityValues').get(prio, 'Invalid')
+            if loc:
+                js["Location Code"] = loc
+            if fru['flags'] & 0x08:
+                js["Part Number"] = fru['pn']
+            if fru['flags'] & 0x02:
+                js["Procedure"] = fru['pn']
+            if fru['flags'] & 0x04:
+                js["CCIN"] = fru['ccin']
+            if fru['flags'] & 0x01:
+                js["Serial Number"] = fru['sn']
+        if pce is not None:
+            if pce['mt']:
+                js["PCE MTMS"] = pce['mt'] + "_" + pce['sn']
+            if pce['name']:
+                js["PCE Name"] = pce['name']
+        if mru is not None:
+            js["MRU Id"] = ",".join("%08X" % m for m in mru)
+        outs.append(js)
+        p += size
+    return OrderedDict([("Callout Count", len(outs)), ("Callouts", outs)])
+
+
+class SrcCalloutsNative(Unit):
+    """bounded companion (C03): generated SRC sections with 0..3 callouts (FRU / PCE / MRU sub-structures of every shape),
+    decoded by the real SRC class with plugins off, compared with the oracle above"""
+    prop = "C03"
+    name = "SRC callout section on generated SRCs (bounded)"
+    target = SRCC + ".toJSON"
+    kind = 'B'
+
+    def inputs(self, S):
+        from contracts import pelgen
+        if hasattr(S, 'rng'):
+            sec = pelgen.gen_src(S.rng, b'PS', callouts=S.rng.randrange(0, 4))
+            S.log['sec'] = sec.hex()
+        else:
+            sec = bytes.fromhex(S.values['sec'])
+        return dict(sec=sec)
+
+    def call_native(self, inp):
+        from pel.datastream import DataStream
+        from pel.peltool.src import SRC
+        from pel.peltool.config import Config
+        import io, contextlib
+        sec = inp['sec']
+        c = Config()
+        c.allow_plugins = False
+        st = DataStream(sec[8:], byte_order='big', is_signed=False)
+        err = io.StringIO()
+        with contextlib.redirect_stderr(err), contextlib.redirect_stdout(err):
+            src = SRC(st, int.from_bytes(sec[0:2], 'big'), int.from_bytes(sec[2:4], 'big'), sec[4], sec[5],
+                      int.from_bytes(sec[6:8], 'big'), "O")
+            return src.toJSON(c), st.index
+
+    def check(self, P, inp, old, out):
+        import json
+        P.prove(out.returned, "a generated well-formed SRC decodes")
+        if not out.returned:
+            return
+        js, used = out.value
+        want = native_callouts_spec(inp['sec'])
+        got = js.get("Callout Section")
+        norm = lambda x: json.loads(json.dumps(x))
+        P.prove((want is None and got is None) or (want is not None and got is not None and norm(got) == norm(want)),
+                "Callout Section == one object per encoded callout, in order, each showing exactly its own FRU / PCE / MRU values")
+        P.prove(used == len(inp['sec']) - 8, "the SRC consumes exactly its section")
+
+
+UNITS = UNITS + [SrcCalloutsNative]
